@@ -109,17 +109,28 @@ def ast_obligations(chk):
               what="Rules.__init__ no longer sorts the primaries by priority")
     rinit = repo.find_function("norminette/registry.py:Registry.__init__")
     loops = [x for x in ast.walk(rinit.node) if isinstance(x, ast.For)]
-    ok_d = False
+    ok_d, seen_table_loop = False, False
     for lp in loops:
-        if "dependencies.items()" in ast.unparse(lp.iter):
-            body = ast.unparse(lp)
+        it = lp.iter
+        # `for name, deps in self.<table>.items():` -- the table of dependency lists, whatever it is called
+        if isinstance(it, ast.Call) and isinstance(it.func, ast.Attribute) and it.func.attr == "items" \
+                and isinstance(it.func.value, ast.Attribute) and ast.unparse(it.func.value.value) == "self":
+            seen_table_loop = True
+            table = ast.unparse(it.func.value)
             # any key that ends in the class name is a total order on the classes (names are unique),
             # whatever comes before it
-            ok_d = any(isinstance(a, ast.Assign) and isinstance(a.targets[0], ast.Subscript)
-                       and ast.unparse(a.targets[0].value) == "self.dependencies" and sorted_with_key(a.value, "__name__")
-                       for a in ast.walk(lp))
-    chk.frame("registry.every_dependency_list_sorted_by_name", ok_d, {},
-              what="Registry.__init__ no longer sorts every dependency list by class name")
+            ok_d = ok_d or any(isinstance(a, ast.Assign) and isinstance(a.targets[0], ast.Subscript)
+                               and ast.unparse(a.targets[0].value) == table and sorted_with_key(a.value, "__name__")
+                               for a in ast.walk(lp))
+    if not seen_table_loop:
+        # no loop over a table of self in Registry.__init__: how the lists are ordered is not recognised
+        from .common import Item
+        chk.items.append(Item("C06.registry.every_dependency_list_sorted_by_name", "frame-scan", "undecided", "frame-scan", 0.0, {}))
+        chk.undecided.append("C06.registry.every_dependency_list_sorted_by_name: the loop that orders the dependency lists was "
+                             "not recognised; the shuffled-directory histories of the bounded stand-in decide")
+    else:
+        chk.frame("registry.every_dependency_list_sorted_by_name", ok_d, {},
+                  what="Registry.__init__ no longer sorts every dependency list by class name")
     # mutable default arguments are only read
     ctx_init = repo.find_function("norminette/context.py:Context.__init__")
     muts = []
